@@ -152,9 +152,13 @@ func (w *World) step(site int) {
 	if site < len(w.siteHits) {
 		w.siteHits[site]++
 	}
-	if t.ticks > t.fuel && !t.exhausted {
+	if t.ticks > t.fuel {
+		// recorded in simulator state before unwinding (the handler's recover cannot mask it);
+		// re-armed with a grace allowance so that the unwinding handler can still answer and a
+		// further request on the same task is bounded again
 		t.exhausted = true
-		if t.rec != nil {
+		t.fuel = t.ticks + DefaultFuel/4
+		if t.rec != nil && !t.rec.FuelExhausted {
 			t.rec.FuelExhausted = true
 			t.rec.FuelSite = site
 		}
